@@ -13,13 +13,15 @@ from common import Disagreement, Failure
 ID = 'C02'
 DRIVER = 'drv_insp'
 DRIVER_ROOT = 'Drivers.Insp'
-PROOF_MODULES = ['OsloProofs.Props.C02Gate', 'OsloProofs.Props.C02', 'OsloProofs.Props.C02More', 'OsloProofs.Props.C02Gpt']
+PROOF_MODULES = ['OsloProofs.Props.C02Gate', 'OsloProofs.Props.C02', 'OsloProofs.Props.C02More', 'OsloProofs.Props.C02Gpt', 'OsloProofs.Props.C02Vmdk']
 LEVEL = 'proof'
 RULE = ('trait-combination images built from each format\'s layout (qcow2: each of the 64 incompatible-feature bits, '
         'random sets, versions 0..5 and extremes, backing-file offset classes 0/1/2^63/2^64-1, v2 headers with '
         'feature bytes, arbitrary irrelevant fields; VMDK: createType spellings and case, recognised and '
         'unrecognised line classes, no extent, extents naming a path, descriptor missing / misplaced / zero '
-        'sectors, header version, every footer / marker field perturbed, text-descriptor mode and KDMV headers '
+        'sectors, header version, every footer / marker field perturbed - also on images whose descriptor area is at '
+        'or beyond the 2048-sector clamp (> 1 MiB, header desc_num 2048/2049/4096 vs a different large footer '
+        'desc_num) -, text-descriptor mode and KDMV headers '
         'with a text version field (class KF_F1); QED; LUKS versions; MBR tables over ten entry kinds - all 3^4 '
         'empty/plain/protective occupancies, all 2^4 bootable ones, every single deviation from the clean '
         'protective table, random (quick) or all 10^4 (thorough) combinations; raw/vhd/vdi/iso/vhdx clean) plus '
@@ -131,7 +133,8 @@ def correspondence(ctx):
     # detect_file_format + CLI exit status on real files
     files = cli_files([it for it in items if len(it['data']) <= 64 * images.K], rng, 18 if ctx.quick else 290)
     big = [it for it in items if len(it['data']) > 64 * images.K]
-    files += big[:2 if ctx.quick else 10]
+    ctx.rng.shuffle(big)
+    files += big[:3 if ctx.quick else 12]
     lines = [G.detect_req(it['data']) for it in files]
     replies = G.ask_par(ctx.driver, lines)
     tmp = tempfile.mkdtemp(prefix='verif-C02-')
@@ -320,8 +323,6 @@ def search(ctx, seeds, full=False):
         for _ in range(rounds):
             items = G.c02_items(rng, ctx.quick)
             for it in items:
-                if len(it['data']) > 64 * images.K and rng.random() < 0.5:
-                    continue
                 for sizes in G.pick_chunkings(it, rng, per):
                     try_insp(it['fmt'], it['data'], sizes, it['expect'], it['label'], it['cli'])
             files = [it for it in items if len(it['data']) <= 64 * images.K and it['cli'] != 'free']
